@@ -50,7 +50,7 @@ def cancelCompleted (s : St) : St :=
 /-- `insertCandidate` with the selected value `v` -/
 def insertCand (s : St) (v : List Nat) : G St := do
   let s := { s with sel := v }
-  if (utf8 v).length < (utf8 s.pfx).length then return s
+  if v.length < s.pfx.length then return s
   let p := clamp s.line s.cur
   let (l2, c2) ← Comp.insertCandidate s.line p s.pfx v
   return { s with cur := p, cline := l2, ccur := c2, alias := false }
@@ -72,10 +72,9 @@ def cancel (s : St) (inserted : Bool) : St :=
         { s with line := l, cur := clamp l (clamp l s.ccur) }
   cancelCompleted s1
 
-/-- `acceptCandidate` (+ `ClearMenu`): the unique candidate goes into the REAL line. `prepareSuffix`
-slices the value at the byte length of the prefix: a value shorter than the prefix panics. -/
+/-- `acceptCandidate` (+ `ClearMenu`): the unique candidate goes into the REAL line (no length guard:
+`prepareSuffix` no longer slices the value at the byte length of the prefix). -/
 def accept (s : St) (v : List Nat) : G St := do
-  if (utf8 v).length < (utf8 s.pfx).length then throw (.oob "comp[prefix:]")
   let plen : Int := s.pfx.length
   let p := clamp s.line (clamp s.line s.cur - plen)
   let l1 ← Core.cut s.line p (p + plen)
